@@ -27,7 +27,7 @@ ap.add_argument('--test-name', help='the demonstration is an in-crate #[test] ad
 a = ap.parse_args()
 
 here = os.path.dirname(os.path.dirname(os.path.abspath(__file__)))
-base = '/tmp/seedchk'
+base = os.environ.get('SEEDCHK_BASE', '/tmp/seedchk')
 work = f'{base}/{a.id}c{a.change}'
 repo = f'{work}/repo'
 shutil.rmtree(work, ignore_errors=True)
